@@ -104,10 +104,18 @@ type epoch struct {
 	qps   int
 	burst int
 	obs   []Obs
+	// wall mode
+	curQ, curB int
+	segs       []*wallSeg
 }
 
-func checkHist(c *rig.Ctx, cs Case) *failure {
+func checkHist(c *rig.Ctx, cs Case) *failure { return checkHistMode(c, cs, false) }
+
+// checkHistMode: wall = the scripted clock could not be installed somewhere in this history; everything runs on the
+// wall clock and the admissions are judged per segment (wall.go). Never fatal.
+func checkHistMode(c *rig.Ctx, cs Case, wall bool) *failure {
 	clk := &scriptClock{arrive: make(chan *pause, 4)}
+	needWall := false
 	var outs []histStepOut
 	var fail *failure
 	lastRL := map[int]clientfc.RateLimiter{}
@@ -131,6 +139,7 @@ func checkHist(c *rig.Ctx, cs Case) *failure {
 					spec.Schemas = append(spec.Schemas, s.real())
 					present[s.Name] = s
 				}
+				before := mono()
 				ul.Sync(spec)
 				so := histStepOut{Seen: []SeenJ{}}
 				// epochs of names that are gone or no longer token buckets end here
@@ -157,27 +166,46 @@ func checkHist(c *rig.Ctx, cs Case) *failure {
 					if !s.isTB() || seen.Kind != "tb" {
 						continue
 					}
-					rl, ok := flowcontrol.VerifC06Limiter(inner)
-					if !ok {
-						continue
+					rl, trackable := flowcontrol.VerifC06Limiter(inner)
+					if !trackable && !wall {
+						needWall = true
+						return
 					}
-					swapped := rl != lastRL[s.Name]
+					swapped := trackable && rl != lastRL[s.Name]
 					if swapped {
 						lastRL[s.Name] = rl
-						if !setClock(rl, clk) {
-							fail = &failure{"diff", "c06.clock-shim", "cannot set the clock of the limiter", nil, nil}
+						if !wall && !setClock(rl, clk) {
+							needWall = true
 							return
 						}
 					}
-					if e, ok := open[s.Name]; ok {
-						e.obs = append(e.obs, Obs{RQ: ip(s.TB[0]), RB: ip(s.TB[1]), Resized: bp(swapped)})
-					} else if len(s.TB) == 2 {
-						open[s.Name] = &epoch{name: s.Name, qps: s.TB[0], burst: s.TB[1]}
+					if len(s.TB) != 2 {
+						continue
+					}
+					e, running := open[s.Name]
+					if !running {
+						e = &epoch{name: s.Name, qps: s.TB[0], burst: s.TB[1], curQ: s.TB[0], curB: s.TB[1]}
+						e.segs = []*wallSeg{{Who: "schema " + hname(s.Name) + ":", QPS: s.TB[0], Burst: s.TB[1], Fresh: true, T0: before, T1: before}}
+						open[s.Name] = e
+						continue
+					}
+					e.obs = append(e.obs, Obs{RQ: ip(s.TB[0]), RB: ip(s.TB[1]), Resized: bp(swapped)})
+					if wall {
+						changed := s.TB[0] != e.curQ || s.TB[1] != e.curB
+						e.curQ, e.curB = s.TB[0], s.TB[1]
+						if trackable && swapped != changed && fail == nil {
+							fail = &failure{"judge", "c06.resize", fmt.Sprintf("op %d: schema %s re-synced to local (%d,%d): parameters changed=%v but the limiter was replaced=%v", i, hname(s.Name), s.TB[0], s.TB[1], changed, swapped), nil, nil}
+						}
+						if swapped || changed {
+							e.segs = append(e.segs, &wallSeg{Who: "schema " + hname(s.Name) + ":", QPS: s.TB[0], Burst: s.TB[1], Fresh: true, T0: before, T1: before})
+						}
 					}
 				}
 				outs = append(outs, so)
 			case op.Acq != nil:
-				clk.set(absToTime(parseBig(op.T)))
+				if !wall {
+					clk.set(absToTime(parseBig(op.T)))
+				}
 				fc, ok := ul.Load(hname(*op.Acq))
 				if !ok || fc == nil {
 					outs = append(outs, histStepOut{})
@@ -190,6 +218,7 @@ func checkHist(c *rig.Ctx, cs Case) *failure {
 				outs = append(outs, histStepOut{Ok: bp(adm)})
 				if e, ok := open[*op.Acq]; ok {
 					e.obs = append(e.obs, Obs{T: op.T, Ok: bp(adm)})
+					e.segs[len(e.segs)-1].call(adm)
 				}
 			default:
 				ul.ResetLimiter(op.Reset)
@@ -200,11 +229,23 @@ func checkHist(c *rig.Ctx, cs Case) *failure {
 	if panicked {
 		return &failure{"judge", "c06.panic", "the flow control panicked: " + msg, nil, nil}
 	}
+	if needWall {
+		noteBrokenTie(c, "hist")
+		return checkHistMode(c, cs, true)
+	}
 	if fail != nil {
 		return fail
 	}
 	for _, e := range open {
 		closed = append(closed, e)
+	}
+	if wall {
+		for _, e := range closed {
+			if f := judgeWallSegs(c, e.segs, "hist"); f != nil {
+				return f
+			}
+		}
+		closed = nil
 	}
 	// the admissions of every token-bucket epoch against its configured local (qps, burst)
 	for _, e := range closed {
@@ -215,7 +256,7 @@ func checkHist(c *rig.Ctx, cs Case) *failure {
 		if err := c.Model("C06.judge", map[string]interface{}{"qps": e.qps, "burst": e.burst, "slack": 1, "obs": e.obs}, &v); err != nil {
 			return &failure{"diff", "c06.model-error", "judge: " + err.Error(), nil, nil}
 		}
-		what := fmt.Sprintf("schema s%d configured as a token bucket (qps=%d, burst=%d)", e.name, e.qps, e.burst)
+		what := fmt.Sprintf("schema s%d, a token bucket since it was configured (qps=%d, burst=%d) (later local values: see the re-syncs in impl)", e.name, e.qps, e.burst)
 		switch {
 		case !v.Resize:
 			return &failure{"judge", "c06.resize", what + ": a re-sync with the same local (qps,burst) replaced the bucket, or one with different values kept it", e.obs, nil}
@@ -245,7 +286,7 @@ func checkHist(c *rig.Ctx, cs Case) *failure {
 			if rig.Canon(m[i].Seen) != rig.Canon(outs[i].Seen) {
 				return &failure{"diff", "c06.hist.diff", fmt.Sprintf("op %d: limiters in force differ: code %s model %s", i, rig.Canon(outs[i].Seen), rig.Canon(m[i].Seen)), outs[i].Seen, m[i].Seen}
 			}
-		} else if cs.Hist[i].Acq != nil && m[i].Ok != nil && outs[i].Ok != nil && *m[i].Ok != *outs[i].Ok {
+		} else if !wall && cs.Hist[i].Acq != nil && m[i].Ok != nil && outs[i].Ok != nil && *m[i].Ok != *outs[i].Ok {
 			return &failure{"diff", "c06.hist.diff", fmt.Sprintf("op %d: acquire answered %v, twin %v", i, *outs[i].Ok, *m[i].Ok), outs[i], m[i]}
 		}
 	}
@@ -270,7 +311,13 @@ func genSchema(c *rig.Ctx, name int, kind int) SchemaJ {
 		}
 	default:
 		q := 1 + r.Intn(12)
+		if r.Intn(5) == 0 {
+			q = 0 // not accepted by validation, but what a server-answered quota of 0 hands to this bucket
+		}
 		b := q + r.Intn(8)
+		if r.Intn(10) == 0 {
+			b = 0
+		}
 		s.TB = []int{q, b}
 		if r.Intn(2) == 0 {
 			s.GTB = []int{q + r.Intn(2000), b + r.Intn(4000)} // global >= local
@@ -303,6 +350,21 @@ func genHist(c *rig.Ctx) Case {
 			case 3, 4:
 				kinds[n] = 1
 				cur[n] = genSchema(c, n, 1)
+			case 6:
+				if kinds[n] == 2 { // the same bucket reaches qps 0 in place, or leaves it
+					s := cur[n]
+					if s.TB[0] == 0 {
+						s.TB = []int{1 + r.Intn(9), s.TB[1]}
+					} else {
+						s.TB = []int{0, s.TB[1]}
+					}
+					if len(s.GTB) == 2 && (s.GTB[0] < s.TB[0] || s.GTB[1] < s.TB[1]) {
+						s.GTB = nil
+					}
+					cur[n] = s
+					break
+				}
+				fallthrough
 			case 5:
 				if kinds[n] == 2 { // same local bucket, other global part / strategy
 					s := cur[n]
@@ -341,7 +403,11 @@ func genHist(c *rig.Ctx) Case {
 				cs.Hist = append(cs.Hist, HOp{Acq: ip(n), T: t.String()})
 			}
 			for j := 0; j < r.Intn(4); j++ {
-				t.Add(t, big.NewInt(int64(r.Intn(3))*1000000000/int64(s.TB[0])+int64(r.Intn(3)-1)+1))
+				per := int64(1000000000)
+				if s.TB[0] > 0 {
+					per = 1000000000 / int64(s.TB[0])
+				}
+				t.Add(t, big.NewInt(int64(r.Intn(3))*per+int64(r.Intn(3)-1)+1))
 				cs.Hist = append(cs.Hist, HOp{Acq: ip(n), T: t.String()})
 			}
 		}
